@@ -372,7 +372,10 @@ static std::vector<Spec> build() {
       // the caller may hand in a DIFFERENT function at every call: evaluate again, at the same point, with another member of the family
       { int k2 = (c.cb_kind + 1) % 3; long double c2[3] = {c.cb[0] * 1.75L + 0.3L, k2 == 1 ? 0.4L : c.cb[1] + 0.6L, k2 == 1 ? 900.0L : c.cb[2] + 0.8L}; if (!c.prec) for (int i = 0; i < 3; i++) c2[i] = (double)c2[i];
         set_callback(k2, c2); Q r0 = Chem::ref(p, x, 0, keq_q), r1 = Chem::ref(p, x, 1, keq_q); long double a2, b2; { Quiet q; if (c.prec) { a2 = masa_eval_source_rho_N<long double>(c.pt[0], &keq_ld); b2 = masa_eval_source_rho_N2<long double>(c.pt[0], &keq_ld); } else { a2 = masa_eval_source_rho_N<double>((double)c.pt[0], &keq_d); b2 = masa_eval_source_rho_N2<double>((double)c.pt[0], &keq_d); } }
+        // ... and the two species sources of one station need not be evaluated with the same function: N with the case's callback, then N2 with the other one
+        long double b3; { set_callback(c.cb_kind, c.cb); Quiet q; if (c.prec) { (void)masa_eval_source_rho_N<long double>(c.pt[0], &keq_ld); set_callback(k2, c2); b3 = masa_eval_source_rho_N2<long double>(c.pt[0], &keq_ld); } else { (void)masa_eval_source_rho_N<double>((double)c.pt[0], &keq_d); set_callback(k2, c2); b3 = masa_eval_source_rho_N2<double>((double)c.pt[0], &keq_d); } }
         set_callback(c.cb_kind, c.cb); long double eps2 = c.prec ? LDBL_EPSILON : DBL_EPSILON;
+        { Outcome o3; o3.label = "mixed-callbacks:source_rho_N2"; o3.lib = b3; o3.ref = r1; o3.err = (double)(fabsq((__float128)b3 - r1.v) / r1.m) / eps2; o3.status = (o3.err <= K && std::isfinite(b3)) ? 0 : 1; o3.note = "N evaluated with one K_eq function, then N2 at the same point with another"; out.push_back(o3); }
         Outcome o1; o1.label = "second-callback:source_rho_N"; o1.lib = a2; o1.ref = r0; o1.err = (double)(fabsq((__float128)a2 - r0.v) / r0.m) / eps2; o1.status = (o1.err <= K && std::isfinite(a2)) ? 0 : 1; o1.note = "same point, a different K_eq function handed in at the next call"; out.push_back(o1);
         Outcome o2; o2.label = "second-callback:source_rho_N2"; o2.lib = b2; o2.ref = r1; o2.err = (double)(fabsq((__float128)b2 - r1.v) / r1.m) / eps2; o2.status = (o2.err <= K && std::isfinite(b2)) ? 0 : 1; o2.note = o1.note; out.push_back(o2); }
       Outcome o; o.label = "closure:Q_N+Q_N2"; o.lib = a + b; o.ref = Q(div.v, qn.m + qn2.m + div.m); long double eps = c.prec ? LDBL_EPSILON : DBL_EPSILON;
